@@ -664,6 +664,10 @@ class Inliner(object):
             if isinstance(st, (ast.Assign, ast.Expr, ast.Return, ast.AugAssign)) and not _in_deferred_context(st, call):
                 par = None
                 for x in ast.walk(st):
+                    # f(*gen(...)): star-unpacking takes every value at once
+                    if isinstance(x, ast.Call) and any(isinstance(a_, ast.Starred) and a_.value is call for a_ in x.args):
+                        par = x
+                        break
                     if isinstance(x, ast.Call) and x.args and x.args[0] is call and isinstance(x.func, ast.Name) and \
                             x.func.id in ('sorted', 'set', 'frozenset', 'sum', 'max', 'min', 'dict', 'OrderedDict') and \
                             not (isinstance(st, ast.Assign) and st.value is x and x.func.id in ('list', 'tuple')):
